@@ -23,7 +23,10 @@ func stateCommentStarted(s *Scanner, c byte) *jerr.JApiError {
 		s.step = stateCommentDouble
 		return nil
 	default:
-		return stateSingleComment(s, c)
+		// Anything else makes it a one line comment: the signs of a "###"
+		// fence stand together ("# see #12 and #13" does not open a block).
+		s.step = stateSingleComment
+		return s.step(s, c)
 	}
 }
 
@@ -33,7 +36,8 @@ func stateCommentDouble(s *Scanner, c byte) *jerr.JApiError {
 		s.step = stateCommentBlock
 		return nil
 	default:
-		return stateSingleComment(s, c)
+		s.step = stateSingleComment
+		return s.step(s, c)
 	}
 }
 
